@@ -108,38 +108,48 @@ Qed.
 
 (* ------------------------------------------------------------------ the value loops *)
 
+Lemma all_space_delimited : forall rest, all_space rest -> delimited rest = true.
+Proof.
+  intros rest H. destruct rest as [|c t]; [reflexivity|]. unfold all_space in H. cbn [forallb] in H.
+  apply andb_true_iff in H. apply H.
+Qed.
+
 Section Loops.
   Context {A : Type}.
   Variable extract : list Z -> ext A.
   Hypothesis progress : forall l v r, extract l = ExtOk v r -> (length r < length l)%nat.
 
   (* the fuel given by the model, length + 1, is sufficient: more fuel gives the same result *)
-  Lemma extract_all_fuel : forall f1 f2 l, (length l < f1)%nat -> (length l < f2)%nat ->
-    extract_all extract f1 l = extract_all extract f2 l.
+  Lemma extract_all_fuel : forall dl f1 f2 l, (length l < f1)%nat -> (length l < f2)%nat ->
+    extract_all extract dl f1 l = extract_all extract dl f2 l.
   Proof.
-    induction f1 as [|f1 IH]; intros f2 l H1 H2; [lia|].
+    intros dl. induction f1 as [|f1 IH]; intros f2 l H1 H2; [lia|].
     destruct f2 as [|f2]; [lia|].
     cbn [extract_all]. pose proof (skip_space_length l) as HL.
     destruct (skip_space l) as [|c t] eqn:Sk; [reflexivity|].
     destruct (extract (c :: t)) as [v rest|] eqn:E; [|reflexivity].
-    apply progress in E. rewrite (IH f2 rest) by lia. reflexivity.
+    apply progress in E. destruct (dl && negb (delimited rest)); [reflexivity|].
+    rewrite (IH f2 rest) by lia. reflexivity.
   Qed.
 
-  Lemma extract_all_unfold : forall f l, (length l < f)%nat ->
-    extract_all extract f l =
+  Lemma extract_all_unfold : forall dl f l, (length l < f)%nat ->
+    extract_all extract dl f l =
     match skip_space l with
     | [] => ([], [])
     | c :: t => match extract (c :: t) with
                 | ExtFail => ([], c :: t)
-                | ExtOk v rest => let '(vs, r) := extract_all extract (S (length rest)) rest in (v :: vs, r)
+                | ExtOk v rest =>
+                  if dl && negb (delimited rest) then ([], c :: t)
+                  else let '(vs, r) := extract_all extract dl (S (length rest)) rest in (v :: vs, r)
                 end
     end.
   Proof.
-    intros f l H. destruct f as [|f]; [lia|]. cbn [extract_all].
+    intros dl f l H. destruct f as [|f]; [lia|]. cbn [extract_all].
     pose proof (skip_space_length l) as HL.
     destruct (skip_space l) as [|c t] eqn:Sk; [reflexivity|].
     destruct (extract (c :: t)) as [v rest|] eqn:E; [|reflexivity].
-    apply progress in E. rewrite (extract_all_fuel f (S (length rest)) rest) by lia. reflexivity.
+    apply progress in E. destruct (dl && negb (delimited rest)); [reflexivity|].
+    rewrite (extract_all_fuel dl f (S (length rest)) rest) by lia. reflexivity.
   Qed.
 
   (* the repaired scalar rule: one value, and nothing but white space around it *)
@@ -151,19 +161,23 @@ Section Loops.
     destruct (skip_space data) as [|c t] eqn:Sk.
     - split; [discriminate|]. intros [rest [N _]]. congruence.
     - destruct (extract (c :: t)) as [v' rest|] eqn:E; cbv beta iota.
-      + rewrite extract_all_unfold by lia.
-        destruct (skip_space rest) as [|c2 t2] eqn:S2.
-        * split.
-          -- intros H. inversion H. subst v'. exists rest. repeat split; [discriminate|].
-             apply skip_space_nil_iff. exact S2.
-          -- intros [rest' [_ [E' Hs]]]. inversion E'. reflexivity.
-        * split.
-          -- intros H. exfalso.
-             destruct (extract (c2 :: t2)) as [v2 r2|].
-             ++ destruct (extract_all extract (S (length r2)) r2) as [vs r]. discriminate.
-             ++ discriminate.
-          -- intros [rest' [_ [E' Hs]]]. inversion E'. subst rest'.
-             apply skip_space_nil_iff in Hs. congruence.
+      + destruct (delimited rest) eqn:Dl; cbn [andb negb].
+        * rewrite extract_all_unfold by lia.
+          destruct (skip_space rest) as [|c2 t2] eqn:S2.
+          -- split.
+             ++ intros H. inversion H. subst v'. exists rest. repeat split; [discriminate|].
+                apply skip_space_nil_iff. exact S2.
+             ++ intros [rest' [_ [E' Hs]]]. inversion E'. reflexivity.
+          -- split.
+             ++ intros H. exfalso.
+                destruct (extract (c2 :: t2)) as [v2 r2|].
+                ** destruct (true && negb (delimited r2)); [discriminate|].
+                   destruct (extract_all extract true (S (length r2)) r2) as [vs r]. discriminate.
+                ** discriminate.
+             ++ intros [rest' [_ [E' Hs]]]. inversion E'. subst rest'.
+                apply skip_space_nil_iff in Hs. congruence.
+        * split; [discriminate|]. intros [rest' [_ [E' Hs]]]. inversion E'. subst rest'.
+          apply all_space_delimited in Hs. congruence.
       + split; [discriminate|]. intros [rest [_ [E' _]]]. discriminate.
   Qed.
 
@@ -176,15 +190,15 @@ Section Loops.
     intros data v. unfold scalar_value_lenient. rewrite extract_all_unfold by lia.
     destruct (skip_space data) as [|c t] eqn:Sk.
     - split; [discriminate|]. intros [rest [N _]]. congruence.
-    - destruct (extract (c :: t)) as [v' rest|] eqn:E; cbv beta iota.
+    - destruct (extract (c :: t)) as [v' rest|] eqn:E; cbv beta iota; cbn [andb].
       + rewrite extract_all_unfold by lia.
         destruct (skip_space rest) as [|c2 t2] eqn:S2.
         * cbn [fst]. split.
           -- intros H. inversion H. subst v'. exists rest. repeat split; [discriminate|].
              left. apply skip_space_nil_iff. exact S2.
           -- intros [rest' [_ [E' _]]]. inversion E'. reflexivity.
-        * destruct (extract (c2 :: t2)) as [v2 r2|] eqn:E2.
-          -- destruct (extract_all extract (S (length r2)) r2) as [vs r]. cbn [fst].
+        * destruct (extract (c2 :: t2)) as [v2 r2|] eqn:E2; cbn [andb].
+          -- destruct (extract_all extract false (S (length r2)) r2) as [vs r]. cbn [fst].
              split; [discriminate|]. intros [rest' [_ [E' [Hs|Hf]]]]; inversion E'; subst rest'.
              ++ apply skip_space_nil_iff in Hs. congruence.
              ++ rewrite S2 in Hf. congruence.
@@ -202,64 +216,50 @@ Section Loops.
     intros data v H. apply scalar_value_iff in H. destruct H as [rest [N [E Hs]]].
     apply scalar_value_lenient_iff. exists rest. repeat split; auto.
   Qed.
-
-  (* vectors: accepted => the whole text was consumed *)
-  Lemma vector_dyn_consumes : forall data vs,
-    vector_dyn extract data = VAccept vs -> extract_all extract (S (length data)) data = (vs, []).
-  Proof.
-    intros data vs H. unfold vector_dyn in H.
-    destruct (extract_all extract (S (length data)) data) as [vs' r]. destruct r; [|discriminate].
-    inversion H. reflexivity.
-  Qed.
-
-  Lemma vector_fixed_consumes : forall n data vs,
-    vector_fixed extract n data = VAccept vs ->
-    extract_all extract (S (length data)) data = (vs, []) /\ length vs = n.
-  Proof.
-    intros n data vs H. unfold vector_fixed in H.
-    destruct (extract_all extract (S (length data)) data) as [vs' r]. destruct r; [|discriminate].
-    destruct (Nat.eqb_spec (length vs') n) as [E|E]; [|discriminate].
-    inversion H. subst vs'. split; [reflexivity|exact E].
-  Qed.
 End Loops.
 
-(* every text consumed by extract_all is a sequence of separated values: for all data,
-   extract_all (vs, []) means data = sp v1 sp v2 ... sp, stated on the residual text *)
+(* a text that is entirely consumed is a sequence of values, each followed by white space or by the end *)
 Section Tokens.
   Context {A : Type}.
   Variable extract : list Z -> ext A.
   Hypothesis progress : forall l v r, extract l = ExtOk v r -> (length r < length l)%nat.
 
-  (* tokens_of data vs: data is white space, then a text from which extract yields v1, and so on *)
+  (* tokens_of data vs: data is white space, then a text from which extract yields v1 and stops at white space
+     or at the end, and so on *)
   Inductive tokens_of : list Z -> list A -> Prop :=
   | TokNil : forall l, all_space l -> tokens_of l []
   | TokCons : forall l v rest vs, skip_space l <> [] -> extract (skip_space l) = ExtOk v rest ->
-      tokens_of rest vs -> tokens_of l (v :: vs).
+      delimited rest = true -> tokens_of rest vs -> tokens_of l (v :: vs).
 
   Lemma extract_all_tokens : forall f l vs, (length l < f)%nat ->
-    (extract_all extract f l = (vs, []) <-> tokens_of l vs).
+    (extract_all extract true f l = (vs, []) <-> tokens_of l vs).
   Proof.
     induction f as [|f IH]; intros l vs H; [lia|].
     cbn [extract_all]. pose proof (skip_space_length l) as HL.
     destruct (skip_space l) as [|c t] eqn:Sk.
     - split.
       + intros E. inversion E. constructor. apply skip_space_nil_iff. exact Sk.
-      + intros T. inversion T as [l0 Hs|l0 v rest vs0 N E T']; subst.
+      + intros T. inversion T as [l0 Hs|l0 v rest vs0 N E Dl T']; subst.
         * reflexivity.
         * congruence.
     - destruct (extract (c :: t)) as [v rest|] eqn:E.
-      + pose proof (progress _ _ _ E) as P.
-        destruct (extract_all extract f rest) as [vs' r] eqn:EA. split.
-        * intros H0. inversion H0. subst. apply (TokCons l v rest vs').
-          -- rewrite Sk. discriminate.
-          -- rewrite Sk. exact E.
-          -- apply (IH rest vs'); [lia|exact EA].
-        * intros T. inversion T as [l0 Hs|l0 v0 rest0 vs0 N E0 T']; subst.
+      + pose proof (progress _ _ _ E) as P. destruct (delimited rest) eqn:Dl; cbn [andb negb].
+        * destruct (extract_all extract true f rest) as [vs' r] eqn:EA. split.
+          -- intros H0. inversion H0. subst. apply (TokCons l v rest vs').
+             ++ rewrite Sk. discriminate.
+             ++ rewrite Sk. exact E.
+             ++ exact Dl.
+             ++ apply (IH rest vs'); [lia|exact EA].
+          -- intros T. inversion T as [l0 Hs|l0 v0 rest0 vs0 N E0 Dl0 T']; subst.
+             ++ apply skip_space_nil_iff in Hs. congruence.
+             ++ rewrite Sk in E0. rewrite E in E0. inversion E0. subst v0 rest0.
+                apply (IH rest vs0) in T'; [|lia]. rewrite EA in T'. inversion T'. reflexivity.
+        * split; [discriminate|].
+          intros T. inversion T as [l0 Hs|l0 v0 rest0 vs0 N E0 Dl0 T']; subst.
           -- apply skip_space_nil_iff in Hs. congruence.
-          -- rewrite Sk in E0. rewrite E in E0. inversion E0. subst v0 rest0.
-             apply (IH rest vs0) in T'; [|lia]. rewrite EA in T'. inversion T'. reflexivity.
+          -- rewrite Sk in E0. rewrite E in E0. inversion E0. subst v0 rest0. congruence.
       + split; [discriminate|].
-        intros T. inversion T as [l0 Hs|l0 v0 rest0 vs0 N E0 T']; subst.
+        intros T. inversion T as [l0 Hs|l0 v0 rest0 vs0 N E0 Dl0 T']; subst.
         * apply skip_space_nil_iff in Hs. congruence.
         * rewrite Sk in E0. congruence.
   Qed.
@@ -642,3 +642,8 @@ Proof. exists [49; 32; 50; 32; 120; 32; 51]. eexists. split; vm_compute; reflexi
 Lemma vector_fixed_lenient_refuted :  (* one value expected, "1 2 3" given: surplus dropped silently *)
   exists data vs, vector_fixed_lenient extract_real 1 data = VAccept vs /\ vector_fixed extract_real 1 data = VReject.
 Proof. exists [49; 32; 50; 32; 51]. eexists. split; vm_compute; reflexivity. Qed.
+
+Lemma vector_unseparated_refuted :    (* "1.2.3": the pinned code returns (1.2, 0.3) *)
+  exists data vs, vector_dyn_lenient extract_real data = VAccept vs /\ length vs = 2%nat /\
+                  vector_dyn extract_real data = VReject.
+Proof. exists [49; 46; 50; 46; 51]. eexists. repeat split; vm_compute; reflexivity. Qed.
